@@ -1,0 +1,17 @@
+//go:build verif
+
+package server
+
+import "go.lsp.dev/protocol"
+
+// Verification hooks for property C08 (range geometry of completion edits).
+
+// VerifCompletionContext exposes determineCompletionContext (no trigger context).
+func VerifCompletionContext(content string, pos protocol.Position) int {
+	return int(determineCompletionContext(content, pos, nil))
+}
+
+// VerifTextEditRange exposes calculateTextEditRange.
+func VerifTextEditRange(content string, pos protocol.Position, ctxType int) *protocol.Range {
+	return calculateTextEditRange(content, pos, CompletionContextType(ctxType))
+}
